@@ -71,6 +71,12 @@ func contextBinding(res *vkit.Result, n *int) {
 						if am.RoundNumber != d.M.RoundNumber || am.Broadcast != d.M.Broadcast || !am.IsFor(C) || offered[key] {
 							continue
 						}
+						if pr.name == "cmp-keygen" && am.RoundNumber == 2 {
+							// the round-2 broadcast of the CMP key generation is a bare hash commitment: nothing in it can be
+							// checked before it is opened in round 3, so storing it under any name is what the protocol does.
+							// Its binding to the author is judged where it is opened (commitmentCopied).
+							continue
+						}
 						offered[key] = true
 						res.Case(fmt.Sprintf("binding|%s|ids=%d|%s", pr.name, ln, key))
 						// a fresh copy of the world up to here is not available (live objects): the probe is made on C itself
